@@ -12,781 +12,686 @@ Definition show_fres (r : fres) : string :=
   end.
 Definition check (rs : list rune) : string := digest (show_fres (format_res rs)).
 Definition full (rs : list rune) : string := show_fres (format_res rs).
-Eval vm_compute in ("<<<M198>>>" ++ check (runes_of_ascii "root packet int {
-// @lengthOf(
-// " ++ [27880; 37322]%N ++ runes_of_ascii "
-@calculatedFrom( ""packet"")match repeatCount as asx {// packet A { u8 x, }
-65535:int ,
-"""":
-    packetx
-, [ 1, ""it's"", 007 , 3,
-    ""a\\"" , 65535 ] : o,
-[ 7 , 1 ]:
-    len [ ""abc""	,""" ++ [28040; 24687]%N ++ runes_of_ascii """ ] : u
-,} ,// packet A { u8 x, }
-@rightPad ( ' ' ) // " ++ [27880; 37322]%N ++ runes_of_ascii "
-len
-    body `{ , }` , }packet repeatCount { string
-trueish
-,@tag(
-0 )	repeat
-tag/// triple
-`{ , }` , // `tick` ""quote"" 'q'
-@tag(255 // @lengthOf(
-) match packetx as
-string_
-    {
-10 :roots, }//
+Eval vm_compute in ("<<<M1861>>>" ++ check (runes_of_ascii "// top
+  options// c0a
+	// c0b
+    {  // c1a
+    	// c1b
+	ArrayPrefixLenType// c2
+
+=  
+  // c3
+
+  u64 
+; 	 // c5
+      FixedStringPadFromLeft  // c6
+  	= 
+      // c7
+	  true;  FixedStringPadChar// c10a
+
+  // c10b
+=  // c11a
+	// c11b
+  '0' ;
+    // c13
+    	}
+    // c14
+  	packet 
+// c15
+	Quote
+    // c16
+    	{ }	// c18a
+
+// c18b
+	  packet
+Ack	// c20
+
+  {
+repeat
+// c22
+    InNote66 // c23
+{	u8 
+        // c25
+	  pad0  
+      // c26
 ,
-@leftPad
-(
-'\x00'	)
-    @tag( 7 ) repeat i8 // packet A { u8 x, }
-rootA
-/// triple
-// " ++ [128512]%N ++ runes_of_ascii " emoji
-`it's` , uint8x tag`a\` ,
-char[] Z9_ @calculatedFrom( //x
-""" ++ [233]%N ++ runes_of_ascii "t" ++ [233]%N ++ runes_of_ascii """
-    )
-, repeat float32
-trueish	, @leftPad ( /// triple
-'\x00'	)	i64_
-    @calculatedFrom( ""x y""
-    ) //
-, repeat f32 Packet ,  }
-    packet u
-    // c
-    {int64 pack@lengthOf(metadata ) ,	repeat
-    char[//	t
-0123456789 ] int
-    ``
-    , @lengthOf(
-    Header  )@calculatedFrom(""`tick`""
-)	float
-    trueish , @calculatedFrom(	""`tick`""
-    // a // b
-    ) stringy ,// " ++ [128512]%N ++ runes_of_ascii " emoji
-repeat Logon  `it's`  ,
-int32  Z9_ @calculatedFrom(
-""\n""), match// c
-u8x as falsey {
-255 : f32a ,
-00:packetx
-, } ,
-zchar[	0 ] roots , @tag( 00) Logon {
-    i64_
-@lengthOf( MetaDataX //
-) ``
-    , repeat body
-MetaDataX `it's`, x { string rootA ``
-    // a // b
-    , repeat options1 f32a , }//
-, Pad
-, // `tick` ""quote"" 'q'
-} , @calculatedFrom( ""1""
-    // packet A { u8 x, }
-    )@lengthOf(T ) char[
-7 ]	pack	`{ , }`	, } MetaData u {
-} /// triple")).
-Eval vm_compute in ("<<<M1775>>>" ++ check (runes_of_ascii "
-root  packet	// " ++ [27880; 37322]%N ++ runes_of_ascii "
+// c27
+    	},// c29
+  }
 
-crc
-{
-	@lengthOf(
-    As	)
-
-    @calculatedFrom( ""\" ++ [233]%N ++ runes_of_ascii """  ) 
-zchar[4294967296 ] 
-MetaDataX`doc` 
-, 	 /// triple
-	rootA @calculatedFrom(
-	""it's""  )
-,
-	@tag(  65535
-) @tag( // c
-  	7
-)
-    @tag( 00 
-	//
-// c
-)
-
-len@lengthOf(
-	A
-    )	`two words`  ,
-	// trailing space 
-  	// " ++ [128512]%N ++ runes_of_ascii " emoji
-
-string
-rootA  @lengthOf(
-
-pack
-// trailing space 
-  //	t
-    ) ,  
-      // " ++ [128512]%N ++ runes_of_ascii " emoji
-
-  // trailing space 
-  repeat 
-zchar
-, 
-@calculatedFrom(
-
-    ""abc""
-
-)
-@leftPad
-('\x00'
-)
-
-    @rightPad  (
-    )
-
-match
-
-    x_y_z
-	as
-
-    Z9_ 
-{  ""it's""
-    :
-    Logon	//x
-
-, ""x y"" : Packet,	""abc""  :
-
-    trueish
-
-    4294967296// @lengthOf(
-  	:
-repeatCount """ ++ [128512]%N ++ runes_of_ascii """ :
-x_y_z
+    packet  // c31a
+// c31b
+  Reject	{ // c33a
+	// c33b
 }
 
-, char[  10// @lengthOf(
-    ]  stringy
-    `it's` ,
+// c34
+    	root  // c35
+packet// c36a
+// c36b
+	Order // c37
+    { // c38
+    	Quote 	 // c39
 
-@leftPad ('\x00'
+	,  
+  // c40
+    repeat Reject  // c42a
 
-)
-	rootA @lengthOf(
-	i64_ ),
-	}	MetaData
-falsey
-{ Packet repeatCount`tab	here`, 
-} MetaData
-
-string_{ float64 roots	`line1
-line2`
-,char
-    As 	 //
-`
-`
-,zchar[ 65535  ]  falsey
-	`a\`	,
-A T ,
-	_x  metadata ,	}
-
-packet
-	_x 	 // packet A { u8 x, }
-    	{
-    zchar[
-
-255	]string_ @lengthOf(  
-  //	t
-	// @lengthOf(
-
-u128 
-)
-    `{ , }`  ,
-
-    }
-root
-packet Packet
-
-{
-
-    repeat	// " ++ [128512]%N ++ runes_of_ascii " emoji
-  lengthOf 
-,
-
-    }
-")).
-Eval vm_compute in ("<<<M1352>>>" ++ check (runes_of_ascii "  options
-    { 
-StringPrefixLenType 
-=
-    u64 ; ArrayPrefixLenType  =u32	;  FixedStringPadFromLeft	=false
-    ; 
-}
-packet	Party
-{ zchar[
-	7
-
-]
-OrderId
-    ,InTail6 { repeat
-
-char[
-
-1
-
-] msgKind
+// c42b
+    	,// c43
+	  string venue 	 // c45
 	,
-char[
-    3 ] 
-Tail
-    ,
-    char[  3
-    ]
-Flags 
-, 
-i16
-
-tag7
-
-, } , @rightPad(  '0'
-	)
-	char[ 12	] clOrdID
-    ,  }
-
-    packet
-Quote
-    {
-	@leftPad 
-(
-
-    '0'	) char[
-    11 
-]
-
-    price, repeat InCount7{ i32
-x,	Party ,
-u8 
-Ref	, u8
-    tag7 ,	},
-	char[] seqNo
-
-,  Party 
-,
-
-} packet
-
-Logon
-{
-@rightPad
-
-    ( '\x00'	)
-	char[
-5
-]
-Note
-    , i16 sym  ,
-    InPrice72 {  char[
-	9
-	]
-
-Ref
-, zchar[  1
-    ]venue
+    // c46
+string	// c47
+  seqNo
+        // c48
 	,
-    }
+    uint32// c50a
+	// c50b
+Ref 
+  // c51
+	,// c52
+	  u16// c53
+    lastPx	// c54a
+	// c54b
+  	,
+u32
 
-    ,
-	char[]
-clOrdID ,
-
-    }root  packet
-
-Reject
-    {repeat  Logon	,	@leftPad (
-' '
-)
-
-char[4
-]
-    seqNo  , zchar[5
-    ] 
-Acct
-
-    , 
-u32 x ,
-    u16
-f1
-
-    @lengthOf( 
-Body)
-,  match
-
-    x
+clOrdID @lengthOf(
+Body // c59a
+// c59b
+    	)// c60
+	,  // c61a
+    // c61b
+  match lastPx
+    // c63
 
 as 
-Body	{
+    // c64
 
-    [ 
-169
+Body 	 // c65
+    { 
+    // c66
+  190 :
+    Reject// c69a
+  // c69b
+  ,  // c70
+	186 
+      // c71
+  :
+// c72
 
-, 
-74	] 
-:	Quote
+Quote 
+        // c73
+  , // c74
+		22 // c75
 
-    , 45:
-Party
-    ,
+: 	 // c76
+Ack , 
+      // c78
 
-    7: Logon
+} 
+    // c79
+	,
+u16  // c81a
+  // c81b
+		Flags// c82a
 
-    ,} ,
-}")).
-Eval vm_compute in ("<<<M1931>>>" ++ check (runes_of_ascii "options {
-    FixedStringPadFromLeft = true;
-    FixedStringPadChar = '0';
-}
+  // c82b
 
-packet Leg {
-    repeat InSym93 {
-        zchar[3] Acct,
-        string Side2,
-        i32 Flags,
-        f32 Note,
-        i32 msgKind,
-    },
-    f64 Note,
-    uint16 Px,
-}
+@calculatedFrom(
+        // c83
 
-packet Quote {
-    zchar[2] OrderId,
-}
-
-packet Ack {
-    repeat string lastPx,
-    zchar[4] price,
-    uint32 OrderId,
-    Quote,
-    int8 Acct,
-}
-
-packet Fill {
-    repeat Leg,
-    @rightPad('0')
-    char[11] Note,
-    f64 Px,
-    @rightPad('\x00')
-    char[5] Flags,
-    zchar[9] x,
-    string msgKind,
-}
-
-root packet Order {
-    Leg,
-    repeat Ack,
-    @rightPad('\x00')
-    char[3] Side2,
-    repeat char[1] seqNo,
-    u16 clOrdID,
-    match clOrdID as Body {
-        198 : Leg,
-        23 : Quote,
-        13 : Ack,
-        159 : Fill,
-    },
-    u32 venue @calculatedFrom(""CR\
-        C32""),
-}")).
-Eval vm_compute in ("<<<M330>>>" ++ check (runes_of_ascii "root packet
-As {
-} MetaData Pad { string
-    metadata  `// not a comment` ,
-    }
-packet metadata
-    { string	charz
-`a\` , @leftPad ( ' ' )pack@lengthOf(x_y_z ), @calculatedFrom( ""packet"")
-match crc
-    as chars { [ ""packet"" ,7 ]
-    :  repeatCount }
-, Pad @lengthOf( matchKey
-    ),
-@calculatedFrom( ""\n""
-    )int64
-    Z9_ @lengthOf(
-    // a // b
-    _x ),
-@lengthOf(repeatCount// trailing space 
-) repeat float
-{ u128 @lengthOf( zchar) , u8 crc
-, } ,
-    int64 pack, u128
-    `it's` , repeat
-// a // b
-// `tick` ""quote"" 'q'
-i32 T , //	t
-@tag(00 ) rootA  @lengthOf(
-float
-    )
-,
-} MetaData Header // @lengthOf(
-{u32 u,	string A `crlf
-line` ,
-u16
-    roots `a\` ,int16 chars , }
-packet repeatCount { repeat char[
-// trailing space 
-//x
-65535]
-    x `line1
-line2`
-, }")).
-Eval vm_compute in ("<<<M52>>>" ++ check (runes_of_ascii "  MetaData
-    // " ++ [27880; 37322]%N ++ runes_of_ascii "
-    packetx { zchar[ 7 ] leftPad
-`// not a comment` ,	}	packet i64_{@calculatedFrom(
-"""" )
-// trailing space 
-// c
-@lengthOf(
-x_y_z ) @tag( 00
-)
-repeatCount
+  ""CRC32""
+        // c84
+  ) ,	// c86
+	} 
+    // c87
+")).
+Eval vm_compute in ("<<<M231>>>" ++ check (runes_of_ascii "root packet
+    metadata {  @lengthOf(
+options1
+) int32 zchar @calculatedFrom(""// no comment"" ) `
+` , repeat calculatedFrom `it's`, //
+match
+    BodyLength as lengthOf
+{ 3 /// triple
+:	leftPad , }, repeat
+u128, char[ 10
+] chars  ,// @lengthOf(
+falsey
+@calculatedFrom( ""x y"") // c
+`{ , }` ,	@tag(42
+)	float64
+    i64_
     // packet A { u8 x, }
-    @calculatedFrom(""1"" ), } packet falsey { int16
-_x
-@calculatedFrom(	""it's"") , } // @lengthOf(
-root
-packet matchKey
-    {repeat u32  Pad  `" ++ [233]%N ++ runes_of_ascii "`, zchar[ 7 ]
-    leftPad
-,match chars as lengthOf
-{ 1 :
-o
-    42 : chars
-// trailing space 
-// c
-,
-}//x
-, repeat
-zchar[
-    255]
-a1, matchKey //
-Packet
-    // `tick` ""quote"" 'q'
-    ,
-f32
-    tag
-    ,
-// @lengthOf(
-// trailing space 
-@calculatedFrom(  ""a\""b"" ) @leftPad( ' ' ) @lengthOf(
-T) stringy
-@lengthOf( o) ,packetx  i64_ ,}
-/// triple
-")).
-Eval vm_compute in ("<<<M342>>>" ++ check (runes_of_ascii "root packet Z9_	{  repeat i8i8 int`// not a comment`
-,	uint8x
-    // c
-    , f64 i8i8  `tab	here` ,@tag(
-3 ) @tag( 3 ) @tag( /// triple
-10
-// trailing space 
-// trailing space 
-) repeat int{ MetaDataX // " ++ [27880; 37322]%N ++ runes_of_ascii "
-,} , @tag( 10
-    ) int8
-    pack@lengthOf(x
-    ), Logon ,	@tag( 00
-) repeat
-rootA
-uint8x ,  @calculatedFrom( ""\n"" // a // b
-) // `tick` ""quote"" 'q'
-@lengthOf( len )
-// @lengthOf(
-// `tick` ""quote"" 'q'
-BodyLength  { matchKey f32a
-//x
-// `tick` ""quote"" 'q'
-`say ""hi""` ,} ,  char[] leftPad `{ , }` ,
-@lengthOf( float )match repeatCount as	o { 255 : matchKey ,
-    // " ++ [128512]%N ++ runes_of_ascii " emoji
-    00:	A 007 :
-    options1 } , }
-")).
-Eval vm_compute in ("<<<M1825>>>" ++ check (runes_of_ascii "options {
-    Header = u32;
-}
-
-options {
-    i8i8 = f64;
-    body = zchar[00];
-}
-
-//
-MetaData BodyLength {
-    // trailing space 
-}// " ++ [27880; 37322]%N ++ runes_of_ascii "
-
-options {
-    Logon = u64
-    As = true
-    i64_ = '\x00';
-}
-
-root packet asx {
-    @tag(4294967296)
-    roots @lengthOf(A),
-    repeat uint8 u128,
-    int32 i64_,
-    u8 u ``,
-    @lengthOf(len)
-    uint64 matchKey,
-    match rootA as stringy {
-        1 : string_,
-        7 : charz,
-        255 : u128,
-        [0, 0123456789, 1, 007] : len,
-        10 : trueish,
-    },
-    @rightPad()
-    char[7] int @lengthOf(x) `two words`,
-}")).
-Eval vm_compute in ("<<<M1441>>>" ++ check (runes_of_ascii "
-MetaData  BodyLength	{
-
-zchar[65535	]  As
-`crlf
-line` ,  u16 
-charz
-
-    , 
-body
-len
-,zchar
-	msg_type,
-    uint64 metadata ,
-    }root
-
-packet	//
-	matchKey
-{
-	repeat
-
-    i8i8  `{ , }`	,
-}
-
-    MetaData 
-a1
-	{i8i8 
-Pad `it's` ,  
-  // trailing space 
-    // `tick` ""quote"" 'q'
-
-int64
-
-// " ++ [128512]%N ++ runes_of_ascii " emoji
-roots
-    `doc`,
-
-    Foo BodyLength `u8 x,` , }packet
-    _x
-	{ lengthOf
-	{  pack `" ++ [28040; 24687; 31867; 22411]%N ++ runes_of_ascii "`
-    , string_ 	 // @lengthOf(
-    	,
-    repeat //
-	rootA
-    len
-
-    ,zchar[
-
-1 
-] u8x	,
-	}	,
-	} ")).
-Eval vm_compute in ("<<<M307>>>" ++ check (runes_of_ascii "  packet	charz	{
-// " ++ [27880; 37322]%N ++ runes_of_ascii "
-/// triple
-repeat // c
-string int `" ++ [28040; 24687; 31867; 22411]%N ++ runes_of_ascii "` , @calculatedFrom( ""it's"" ) @tag(
-255 )  f64 // a // b
-asx
-,
-string
-T `doc` ,zchar[
-007 ]tag @lengthOf( //
-Z9_ )`// not a comment` , }
-options{ u= u16; }
-MetaData
-    chars
-    { i16 falsey , f64 pack,
-    char[  1
-    ]
-asx
-`it's`, char[] body ,
-// `tick` ""quote"" 'q'
-//x
-}packet leftPad { @rightPad
-(
-// @lengthOf(
-//x
-)
-repeat Pad float
-    `{ , }`
-,
-    }	options {
-    roots= true;  }
-")).
-Eval vm_compute in ("<<<M1329>>>" ++ check (runes_of_ascii "packet Frame {
-    u8 HK,
-    u8 BK,
-    u8 TK,
-    match HK as Hdr {
-        1 : HdrA,
-        2 : HdrB,
-    },
-    match BK as Body {
-        1 : BodyA,
-        2 : BodyB,
-    },
-    match TK as Trl {
-        1 : TrlA,
-    },
-}
-packet HdrA {
-    u8 a,
-}
-packet HdrB {
-    u16 b,
-}
-packet BodyA {
-    u32 c,
-}
-packet BodyB {
-    u64 d,
-}
-packet TrlA {
-    u8 e,
-}
-root packet Msg {
-    Frame,
-    u8 x,
-}
-")).
-Eval vm_compute in ("<<<M372>>>" ++ check (runes_of_ascii "// @lengthOf(
-MetaData leftPad { string	options1`say ""hi""` ,
-    //x
-    int16 metadata`" ++ [233]%N ++ runes_of_ascii "`,f32 i64_
+    , u8x@calculatedFrom(  ""{,}"" ) `two words`
 //	t
-// c
-, }  packet
-trueish { // c
-MetaDataX roots ,_x
-    a1 , match
-packetx as charz { 0
-: // c
-f32a ,
-} //
-, repeat body Logon , }	options { repeatCount=
-    int8
-charz // `tick` ""quote"" 'q'
-=	char[];  msg_type =""it's""	u
-=
-    007 Z9_
-    = uint32
+// trailing space 
+, @lengthOf(T)
+char[	255]  pack `it's`
+,match MetaDataX
+as i64_{
     //
-    }")).
-Eval vm_compute in ("<<<M194>>>" ++ check (runes_of_ascii "// `tick` ""quote"" 'q'
-options
-    //	t
-    { }  packet lengthOf // `tick` ""quote"" 'q'
-{  } packet
-// a // b
-// " ++ [27880; 37322]%N ++ runes_of_ascii "
-Foo {
+    """ ++ [28040; 24687]%N ++ runes_of_ascii """ // @lengthOf(
+:Header , 0
+    //
+    : x_y_z 3 : // `tick` ""quote"" 'q'
+int""abc""
+    // @lengthOf(
+    : u8x ,
+    } , } packet i64_
+{@rightPad ( ) /// triple
+pack {
+match MetaDataX
+    as trueish { 1 // @lengthOf(
+:
+    len
+00	: falsey // packet A { u8 x, }
+,"""" :
+x ,
+}, } , @tag(1) char[]int @lengthOf(	metadata
+) // packet A { u8 x, }
+, a1 @lengthOf( calculatedFrom ) ,
+    @tag( 7
+    )tag@lengthOf(u ) , BodyLength /// triple
+@calculatedFrom( ""it's""
+) `say ""hi""` ,string
+msg_type ,
+    }
+    MetaData
+    Logon { BodyLength
+_x `it's` , int32 body ,
+    // trailing space 
+    } root	packet body{  }
+")).
+Eval vm_compute in ("<<<M17>>>" ++ check (runes_of_ascii "
+MetaData
+    x{ len
+    crc , float
+    // " ++ [128512]%N ++ runes_of_ascii " emoji
+    asx, i32 uint8x`line1
+line2` ,u16
+tag
+// `tick` ""quote"" 'q'
+//x
+`it's` , As string_
+    ,
+}
+packet metadata {@lengthOf(zchar )// c
+i64_ @calculatedFrom(
+""\" ++ [233]%N ++ runes_of_ascii """	) , //x
+@leftPad
+    ( '\x00' ) zchar[ 10
+] zchar
+    ,
+    lengthOf //x
+string_ ,int @lengthOf( pack
+    ),
+    zchar[ 00 ]
+    Foo , @lengthOf( packetx )
+    @leftPad (
+'\x00'// " ++ [27880; 37322]%N ++ runes_of_ascii "
+) @calculatedFrom(
+    // @lengthOf(
+    ""x y"" )uint16
+len@calculatedFrom( """" )
+`two words` , int8
+    metadata @lengthOf( Foo )`two words`	, // @lengthOf(
+}options
+{ }
+packet
+pack{
+// `tick` ""quote"" 'q'
+//
+f64
+    o , T BodyLength  ,
+    repeat
+    uint8 chars  `" ++ [233]%N ++ runes_of_ascii "`
+    ,repeat
+    // c
+    Logon
+u
+    // " ++ [128512]%N ++ runes_of_ascii " emoji
+    ,@tag(
+    0123456789 )
+char[] repeatCount @lengthOf(// " ++ [27880; 37322]%N ++ runes_of_ascii "
+_x )
+    // c
+    `
+` ,//
 @tag(
-1
-) string
-uint8x ,_x { chars  , string uint8x , i64 _x //
-`it's`
-    , repeat uint8 As,	}
-, float32
-f32a , @leftPad( '\x00')
-    @calculatedFrom( """ ++ [28040; 24687]%N ++ runes_of_ascii """
-) // trailing space 
-uint8 Logon
+// packet A { u8 x, }
+/// triple
+7 )  repeatCount @calculatedFrom(""packet"" ) `{ , }` , }")).
+Eval vm_compute in ("<<<M1321>>>" ++ check (runes_of_ascii "// top
+packet // c0
+P1
+    // c1
+{ // c2
+u8
+    // c3
+a // c4a
+  // c4b
 ,
-    }")).
-Eval vm_compute in ("<<<M1308>>>" ++ check (runes_of_ascii "packet A {
-    u8 a,
-}
-packet B {
-    u16 b,
-}
-packet C {
-    u32 c,
-}
-root packet M {
-    u16 Kc, u16 Kb, u16 Ka,
-    match Kc as X {
-        9 : A,
-        10 : B,
-    },
-    match Kb as Y {
-        2 : C,
-        1 : A,
-    },
-    match Ka as Z {
-        1 : B,
-    },
-    A, B, C,
-}
-")).
-Eval vm_compute in ("<<<M1274>>>" ++ check (runes_of_ascii "// top
-options
-    // c0
-{ // c1a
-  // c1b
-FixedStringPadFromLeft
-    // c2
-= // c3
-true
-    // c4
-; // c5a
-  // c5b
-}
-    // c6
-root // c7
-packet P {
-    // c10
-char[ // c11a
-  // c11b
-4 // c12a
+    // c5
+} // c6
+packet
+    // c7
+P2 // c8
+{ // c9a
+  // c9b
+P1 // c10
+, } // c12a
   // c12b
-] z // c14
-,
+packet // c13a
+  // c13b
+P3
+    // c14
+{
     // c15
-} // c16a
-  // c16b
+P2
+    // c16
+, // c17
+P1 , // c19
+} // c20a
+  // c20b
+packet // c21
+P4 // c22
+{ // c23
+repeat // c24a
+  // c24b
+P3
+    // c25
+, P2 , } root // c30a
+  // c30b
+packet // c31
+P5 { // c33
+P4
+    // c34
+,
+    // c35
+P3 // c36a
+  // c36b
+, P1
+    // c38
+,
+    // c39
+u8 K // c41
+, // c42
+match // c43
+K // c44a
+  // c44b
+as
+    // c45
+Body // c46a
+  // c46b
+{ // c47a
+  // c47b
+4 : // c49a
+  // c49b
+P4 // c50
+, // c51
+3 :
+    // c53
+P3 // c54a
+  // c54b
+, // c55a
+  // c55b
+2 // c56a
+  // c56b
+:
+    // c57
+P2 ,
+    // c59
+1 : // c61a
+  // c61b
+P1 // c62
+, // c63a
+  // c63b
+}
+    // c64
+, }
+    // c66
 ")).
-Eval vm_compute in ("<<<M1505>>>" ++ check (runes_of_ascii "// top
-options {
-    f32a = 0
-}// c5
-
-packet trueish {
-    // c8
+Eval vm_compute in ("<<<M1456>>>" ++ check (runes_of_ascii "packet float {
+    char[] u8x @lengthOf(roots),
 }
 
-// c9
-MetaData _x {
-    char[0123456789] zchar,// c17a
-    // c17b
-    string crc,
-    // c20
-    char[1] options1,
-    uint8 repeatCount,// c28
-}// c29")).
-Eval vm_compute in ("<<<M1634>>>" ++ check (runes_of_ascii "options {
+MetaData leftPad {
+    string a1,
+}
+
+root packet pack {
+    falsey,
+    /// triple
+    match Logon as trueish {
+        ""packet"" : Foo,
+        """" : len,
+        0123456789 : i64_,
+        ""it's"" : packetx,
+        255 : len,
+    },
+    repeat As As `" ++ [233]%N ++ runes_of_ascii "`,
+    @tag(3)
+    uint32 a1,
+    repeat zchar[4294967296] pack,
+    @leftPad(' ')
+    zchar @lengthOf(string_) `// not a comment`,
+    repeat int,
+    repeat i8i8 {
+        u64 tag `say ""hi""`,
+        u8x,
+        char trueish,
+        repeat float32 stringy `line1
+                line2`,
+    },
+    match o as o {
+        007 : float,
+    },
+    // packet A { u8 x, }
+    // c
+    repeat Pad,
+    // " ++ [27880; 37322]%N ++ runes_of_ascii "
+    // trailing space 
+}")).
+Eval vm_compute in ("<<<M1793>>>" ++ check (runes_of_ascii "// `tick` ""quote"" 'q'
+packet As {
+    @rightPad('0')
+    stringy @lengthOf(calculatedFrom),
+    @tag(10)
+    string uint8x `
+    `,
+    match body as uint8x {
+        ""it's"" : rootA,
+        [00] : leftPad,
+        42 : MetaDataX,
+        ""a	b"" : calculatedFrom,
+        255 : trueish,
+    },
+    repeat i64 Logon `tab	here`,
+}
+
+options {
+    crc = '\x00';
+}
+
+packet x {
+    @calculatedFrom(""a\\"")
+    @tag(42)
+    @leftPad('0')
+    match o as x_y_z {
+        // packet A { u8 x, }
+        [
+            """ ++ [128512]%N ++ runes_of_ascii """, ""x y"", 0123456789, ""CRC32"", ""it's"",
+            007, 3, 007
+        ] : Packet,
+        // c
+        [255, ""x y""] : x_y_z,
+    },
+}
+// trailing space ")).
+Eval vm_compute in ("<<<M1712>>>" ++ check (runes_of_ascii "// a // b
+packet stringy {
+    @tag(3)
+    // trailing space 
+    i64 len,
+    @calculatedFrom(""1"")
+    char[0] x @lengthOf(Foo),
+    @calculatedFrom("""")
+    body @lengthOf(calculatedFrom) `line1
+        line2`,
+    @calculatedFrom(""it's"")
+    // packet A { u8 x, }
+    match falsey as u8x {
+        [""" ++ [128512]%N ++ runes_of_ascii """, 42, 1, 10] : Header,
+    },
+    // trailing space 
+    // `tick` ""quote"" 'q'
+}
+
+MetaData stringy {
+    f32a u128 `{ , }`,
+    char[10] u128,
+    chars _x,
+    zchar[65535] falsey `{ , }`,
+    _x i64_,
+    int32 Packet `crlf
+        line`,
+}
+
+MetaData lengthOf {
+}
+// trailing space ")).
+Eval vm_compute in ("<<<M64>>>" ++ check (runes_of_ascii "
+MetaData //	t
+body { T
+    calculatedFrom, string f32a `line1
+line2`, leftPad BodyLength
+`tab	here` ,
+}options {
+}
+MetaData
+    options1	{
+char[ 3 ] MetaDataX
+// " ++ [128512]%N ++ runes_of_ascii " emoji
+/// triple
+`" ++ [28040; 24687; 31867; 22411]%N ++ runes_of_ascii "` ,  BodyLength x	`
+`,u16 tag	`say ""hi""`, u8
+float ,float32 As `
+`
+    ,
+    i8i8 Z9_ `
+`, } packet u { @tag( 42
+) options1 // c
+o `crlf
+line` ,@calculatedFrom( ""`tick`""
+// packet A { u8 x, }
+// a // b
+) repeat
+    char[]	a1
+    //x
+    ,	} options
+    { uint8x=
+true
+    A
+= // `tick` ""quote"" 'q'
+7 ; // packet A { u8 x, }
+len=	""" ++ [128512]%N ++ runes_of_ascii """
+    }")).
+Eval vm_compute in ("<<<M340>>>" ++ check (runes_of_ascii "packet leftPad//
+{@rightPad () repeat chars	{crc /// triple
+pack  ,
+} ,
+@calculatedFrom( """ ++ [28040; 24687]%N ++ runes_of_ascii """ )@lengthOf(options1  )@tag( 65535 ) Foo,match
+matchKey
+    as // " ++ [128512]%N ++ runes_of_ascii " emoji
+tag	{
+    // c
+    [ ""{,}"",
+""""
+, ""`tick`"" ,
+3 ,""it's"",  """ ++ [128512]%N ++ runes_of_ascii """	,
+""it's""] :As
+    , [
+/// triple
+//	t
+""x y""]
+    //x
+    :
+chars,""" ++ [233]%N ++ runes_of_ascii "t" ++ [233]%N ++ runes_of_ascii """	:uint8x,4294967296:	packetx
+""// no comment""
+:
+calculatedFrom , }
+,  @calculatedFrom( ""// no comment""// @lengthOf(
+)
+char[// trailing space 
+007 ]	f32a ,} // a // b")).
+Eval vm_compute in ("<<<M1863>>>" ++ check (runes_of_ascii "
+
+  // top
+  packet	// c0
+  	B // c1
+  {	// c2
+u8	// c3
+    	a  ,  // c5a
+  	// c5b
+	}	// c6
+
+root	// c7
+
+packet	P// c9a
+    	// c9b
+  { // c10a
+// c10b
+  u8 // c11
+    K 
+,	// c13a
+  // c13b
+
+match  K  // c15a
+// c15b
+      as// c16a
+	  // c16b
+
+  Body {	// c18
+1
+
+    :
+	// c20
+
+  B
+	,  } 
+// c23
+    	,  // c24a
+  // c24b
+	u16 // c25a
+  // c25b
+
+L 	 // c26
+
+@lengthOf(
+
+    Body
+	    // c28
+
+) 
+  // c29
+
+  , 
+    // c30
+  } ")).
+Eval vm_compute in ("<<<M101>>>" ++ check (runes_of_ascii "MetaData T {  a1 Packet,// " ++ [128512]%N ++ runes_of_ascii " emoji
+uint8x
+// @lengthOf(
+//x
+Pad `" ++ [233]%N ++ runes_of_ascii "` , a1
+    // " ++ [27880; 37322]%N ++ runes_of_ascii "
+    MetaDataX ,	zchar[00]metadata`u8 x,` ,Pad// trailing space 
+x `
+` ,
+    i8
+u8x ,
+}  options { As =
+    false;}root packet options1 { @calculatedFrom( ""// no comment"" ) @lengthOf( _x	)
+    @tag(007 ) repeat
+// trailing space 
+// @lengthOf(
+f32 i8i8
+    `" ++ [233]%N ++ runes_of_ascii "` ,
+    @rightPad	( ' '// " ++ [27880; 37322]%N ++ runes_of_ascii "
+) repeat Pad , }
+")).
+Eval vm_compute in ("<<<M236>>>" ++ check (runes_of_ascii "packet metadata{ //	t
+float64	body
+    @lengthOf( calculatedFrom ) , // a // b
+@tag(42
+    ) rootA ,
+    x_y_z u8x`// not a comment`
+    ,  @lengthOf(Pad)  match // " ++ [27880; 37322]%N ++ runes_of_ascii "
+packetx  as leftPad
+    {
+    //
+    65535 : tag ,
+""" ++ [128512]%N ++ runes_of_ascii """ :_x} , x_y_z  metadata , @tag(7 )int64 zchar @lengthOf(
+repeatCount ) `" ++ [233]%N ++ runes_of_ascii "`,@tag( 0123456789 ) repeat float chars ,	f32  MetaDataX
+,}")).
+Eval vm_compute in ("<<<M1529>>>" ++ check (runes_of_ascii "packet a1 {
+    @leftPad()
+    float @lengthOf(uint8x),
+}
+
+packet Logon {
+    char Logon @calculatedFrom(""a\\""),
+    T stringy,
+    //
+    // c
+    repeat uint8 stringy `two words`,
+}
+
+MetaData charz {
+    u tag `
+        `,
+    a1 falsey,//x
+    Z9_ matchKey,
+    f64 lengthOf `a\`,
+    f32a roots ``,
+    float64 x_y_z,
+}")).
+Eval vm_compute in ("<<<M32>>>" ++ check (runes_of_ascii "packet int { T/// triple
+{ repeat _x ,	} ,
+    i64_ _x
+    `
+`, @calculatedFrom( ""x y"" )u32 A
+,  match a1 as
+    i8i8 { [ ""1""
+,
+4294967296
+]:
+    a1 ,"""":	a1
+    , 007: a1 , [ ""CRC32"" ] :Header} , int64 As, int8 a1 , //
+char[] float
+`tab	here`/// triple
+,
+repeat zchar[ 1	]u8x,
+} /// triple")).
+Eval vm_compute in ("<<<M177>>>" ++ check (runes_of_ascii "root
+packet Logon {
+    @rightPad
+(// @lengthOf(
+'0' ) repeat
+    charz // " ++ [27880; 37322]%N ++ runes_of_ascii "
+{// " ++ [128512]%N ++ runes_of_ascii " emoji
+Z9_ `{ , }` , string string_ `say ""hi""` , repeat int8  rootA ,	match Foo	as
+pack {
+[ 42
+// c
+/// triple
+, 0 ] :u, ""a\""b"" : int
+,
+}
+// c
+// `tick` ""quote"" 'q'
+,
+} , }")).
+Eval vm_compute in ("<<<M183>>>" ++ check (runes_of_ascii "root
+packet tag {
+@calculatedFrom(
+""{,}""
+    // `tick` ""quote"" 'q'
+    )
+@tag(
+//x
+// " ++ [27880; 37322]%N ++ runes_of_ascii "
+42
+    )
+    i64_ @lengthOf( calculatedFrom ) , zchar[// " ++ [128512]%N ++ runes_of_ascii " emoji
+3 // @lengthOf(
+] int  , } root// c
+packet Foo { }
+// @lengthOf(
+")).
+Eval vm_compute in ("<<<M1616>>>" ++ check (runes_of_ascii "options {
     FixedStringPadChar = '0';
 }
 
@@ -802,60 +707,32 @@ root packet R {
     zchar[8] top,
     repeat zchar[2] zs,
 }")).
-Eval vm_compute in ("<<<M44>>>" ++ check (runes_of_ascii "
-packet repeatCount
-    {
-trueish , } packet uint8x
-{/// triple
-match u8x as calculatedFrom
-    { [ 4294967296 ]: len ,
-[ """ ++ [128512]%N ++ runes_of_ascii """ ,	""" ++ [233]%N ++ runes_of_ascii "t" ++ [233]%N ++ runes_of_ascii """ , 255 , //
-1
-] : falsey , } , }
-")).
-Eval vm_compute in ("<<<M187>>>" ++ check (runes_of_ascii "
-options// " ++ [27880; 37322]%N ++ runes_of_ascii "
-{
-f32a= ""a\""b""//x
-; Z9_ = // " ++ [27880; 37322]%N ++ runes_of_ascii "
-""`tick`""	Logon
-    // " ++ [27880; 37322]%N ++ runes_of_ascii "
-    =""CRC32""u128= f64 ;rootA	=
-false ;} //	t
-packet lengthOf {
-} MetaData len { }
-")).
-Eval vm_compute in ("<<<M466>>>" ++ check (runes_of_ascii "packet uint8x
-{ match pack
-    as msg_type	{
-    0123456789 :	float
-}
+Eval vm_compute in ("<<<M1281>>>" ++ check (runes_of_ascii "// top
+root // c0a
+  // c0b
+packet P {
+    // c3
+u16
+    // c4
+a
+    // c5
 ,
-} packet //	t
-a1 a1
-    { } options {packetx
-    = '\x00'	; u128= ""a	b""  ; }
+    // c6
+u32 // c7a
+  // c7b
+Sum // c8
+@calculatedFrom( // c9a
+  // c9b
+""CRC32"" ) , } // c13
 ")).
-Eval vm_compute in ("<<<M701>>>" ++ check (runes_of_ascii "// @lengthOf(
-packet i8i8 { u128 o , }
-options { MetaDataX = true;
-    BodyLength =""packet"" ""packet"" x_y_z= 007
-crc //x
-= ""abc"" ;
-    msg_type =
-i16 }")).
-Eval vm_compute in ("<<<M462>>>" ++ check (runes_of_ascii "packet uint8x
-{ match pack
-    as msg_type	{
-    0123456789 :	float
-}
-,
-} a1 //	t
-packet
-    { } options {packetx
-    = '\x00'	; u128= ""a	b""  ; }
+Eval vm_compute in ("<<<M355>>>" ++ check (runes_of_ascii "options  { As = true
+    MetaDataX =true	}	packet A { repeat calculatedFrom `say ""hi""`
+    ,} MetaData crc { u crc ,
+    uint32 body , i16 stringy
+`u8 x,`
+, }
 ")).
-Eval vm_compute in ("<<<M505>>>" ++ check (runes_of_ascii "packet uint8x
+Eval vm_compute in ("<<<M508>>>" ++ check (runes_of_ascii "packet uint8x
 { match pack
     as msg_type	{
     0123456789 :	float
@@ -864,251 +741,284 @@ Eval vm_compute in ("<<<M505>>>" ++ check (runes_of_ascii "packet uint8x
 } packet //	t
 a1
     { } options {packetx
-    = '\x00'	 u128= ""a	b""  ; }
+    = '\x00'	int16 u128= ""a	b""  ; }
 ")).
-Eval vm_compute in ("<<<M1667>>>" ++ check (runes_of_ascii "options {
-    body = """ ++ [28040; 24687]%N ++ runes_of_ascii """
+Eval vm_compute in ("<<<M544>>>" ++ check (runes_of_ascii "packet uint8x
+{ match pack
+    as msg_type	{
+    0123456789 :	float
 }
-
-packet matchKey {
-    string_ @lengthOf(f32a),
-    int32 int @lengthOf(u128),
-    tag x_y_z,
+,
+} packet //	t
+a1
+    { } options {packetx
+    = " ++ [65279]%N ++ runes_of_ascii " '\x00'	; u128= ""a	b""  ; }
+")).
+Eval vm_compute in ("<<<M447>>>" ++ check (runes_of_ascii "packet uint8x
+{ match pack
+    as msg_type	{
+    0123456789 :	float
+,
 }
+} packet //	t
+a1
+    { } options {packetx
+    = '\x00'	; u128= ""a	b""  ; }
+")).
+Eval vm_compute in ("<<<M485>>>" ++ check (runes_of_ascii "packet uint8x
+{ match pack
+    as msg_type	{
+    0123456789 :	float
+}
+,
+} packet //	t
+a1
+    { } options packetx
+    = '\x00'	; u128= ""a	b""  ; }
+")).
+Eval vm_compute in ("<<<M667>>>" ++ check (runes_of_ascii "// @lengthOf(
+packet i8i8 { u128 o char }
+options { MetaDataX = true;
+    BodyLength =""packet"" x_y_z= 007
+crc //x
+= ""abc"" ;
+    msg_type =
+i16 }")).
+Eval vm_compute in ("<<<M1424>>>" ++ check (runes_of_ascii "  packet B {
+u8
+	a , }
 
-packet BodyLength {
+    root  packet P
+{
+    u8
+K
+
+,
+u64 L
+
+    @lengthOf(
+Body) 
+,  match K as
+
+    Body 
+{  1 
+:B
+,
+    }	,
+    } ")).
+Eval vm_compute in ("<<<M1434>>>" ++ check (runes_of_ascii "packet A {
+    u16 len @lengthOf(body) `a
+        
+        b`,
+    u32 crc @calculatedFrom(""CRC32"") `a
+        
+        b`,
+    string body,
 }")).
-Eval vm_compute in ("<<<M120>>>" ++ check (runes_of_ascii "packet float {@calculatedFrom(
-// " ++ [128512]%N ++ runes_of_ascii " emoji
-// packet A { u8 x, }
-""CRC32"" )Foo `" ++ [28040; 24687; 31867; 22411]%N ++ runes_of_ascii "`	,@calculatedFrom( ""a\\"" )
-    zchar[ 0 ]	msg_type `doc` , }")).
-Eval vm_compute in ("<<<M1664>>>" ++ check (runes_of_ascii "
+Eval vm_compute in ("<<<M1829>>>" ++ check (runes_of_ascii "
+packet  A
+{match
+	k as
+	n
+{[	1	, 22
+    ,  ""c c""  ,
+4 ,
 
-  packet A
-	{
-	match
-
-    k
-    as 
-n  { [""a""
+5
+    , ""f"" 
+, 7
+, 
+8 ,
+""i"" ,
+10 ,11
 ,
-    22
-,	""c c"" , 4
+    ""l""
+
+] :B
 	, 
+2
+
+: C
+}
+, 
+} ")).
+Eval vm_compute in ("<<<M304>>>" ++ check (runes_of_ascii "packet
+    // " ++ [27880; 37322]%N ++ runes_of_ascii "
+    Logon {
+repeatCount @lengthOf( roots ) , @tag(0) repeat zchar[007] crc , rootA a1 `{ , }` , string_ `" ++ [233]%N ++ runes_of_ascii "`
+,  }
+")).
+Eval vm_compute in ("<<<M1720>>>" ++ check (runes_of_ascii "
+packet	A	{
+
+    match
+k as
+n 
+{[	""a"" ,22
+
+    ,
+
+""c c"" 
+,
+4 ,
 ""e""
-,66  ,
-    ""g""
-,	8
 
 ,
+66
+,  ""g""  , 8  ,""i"" 
+] 
+: B 2	:C
+    }
+	,}
+")).
+Eval vm_compute in ("<<<M1156>>>" ++ check (runes_of_ascii "MetaData leftPad { chars MetaDataX , }
+// c
+packet repeatCount { char[ 255 ] uint8x `" ++ [233]%N ++ runes_of_ascii "` , } MetaData pack { As Foo , }")).
+Eval vm_compute in ("<<<M1188>>>" ++ check (runes_of_ascii "MetaData leftPad { chars MetaDataX , } packet repeatCount { char[ 255 ] uint8x `" ++ [233]%N ++ runes_of_ascii "` , } MetaData pack { As Foo ,
+// c
+}")).
+Eval vm_compute in ("<<<M925>>>" ++ check (runes_of_ascii "packet A {
+    u16 len @lengthOf(body) `a
+b`,
+    u32 crc @calculatedFrom(""CRC32"") `a
+b`,
+    string body,
+}")).
+Eval vm_compute in ("<<<M1788>>>" ++ check (runes_of_ascii "
+packet
+FooBar{ 
+u8
+a ,}
+	packet
 
-    ""i""
-	,10, ""k""
-]:B	2 : C	}
+foo_bar
+    { 
+u16
 
-,	}")).
-Eval vm_compute in ("<<<M1436>>>" ++ check (runes_of_ascii "MetaData 
-leftPad {chars 
-	// c
-MetaDataX  ,
-
-    }packet	repeatCount {char[ 255 ]
-
-uint8x
-    `" ++ [233]%N ++ runes_of_ascii "`  ,}MetaData
-pack { As  Foo
+b
 
 ,}
+root
+
+packet  R { FooBar
+
+, foo_bar  ,  }
 ")).
-Eval vm_compute in ("<<<M1648>>>" ++ check (runes_of_ascii "packet A {
-    match k as n {
-        [
-            1, 22, ""c c"", 4, 5,
-            ""f"", 7
-        ] : B,
-        2 : C,
-    },
-}")).
-Eval vm_compute in ("<<<M1258>>>" ++ check (runes_of_ascii "packet B {
+Eval vm_compute in ("<<<M1406>>>" ++ check (runes_of_ascii "// top
+packet body {
+    // c2
+    i32 f32a `{ , }`,
+    // c6
+}
+
+// c7
+options {
+    // c9
+}
+// c10")).
+Eval vm_compute in ("<<<M1267>>>" ++ check (runes_of_ascii "packet B {
     u8 a,
+    string s,
 }
 root packet P {
-    u8 K,
-    u8 L @lengthOf(Body),
-    match K as Body {
-        1 : B,
-    },
+    u16 L @lengthOf(B),
+    B,
+    u8 t,
 }
 ")).
-Eval vm_compute in ("<<<M1161>>>" ++ check (runes_of_ascii "MetaData leftPad { chars MetaDataX , } packet repeatCount { // c
-char[ 255 ] uint8x `" ++ [233]%N ++ runes_of_ascii "` , } MetaData pack { As Foo , }")).
-Eval vm_compute in ("<<<M39>>>" ++ check (runes_of_ascii "options { o =
-    '\x00' // " ++ [128512]%N ++ runes_of_ascii " emoji
-; T = u32 ; msg_type
-// `tick` ""quote"" 'q'
-//
-= ""a	b""  a1 = '\x00'
-}
-// " ++ [128512]%N ++ runes_of_ascii " emoji
-")).
-Eval vm_compute in ("<<<M1244>>>" ++ check (runes_of_ascii "// top
-root // c0
-packet // c1
-P { // c3
-repeat // c4
-char cs
-    // c6
-, u8 x // c9a
-  // c9b
-, }
-    // c11
-")).
-Eval vm_compute in ("<<<M897>>>" ++ check (runes_of_ascii "packet A {
-  match k as n {
-    [""a"", 22, ""c c"", 4, ""e"", 66, ""g"", 8, ""i"", 10, ""k""] : B,
-    2 : C
-  },
-}")).
-Eval vm_compute in ("<<<M956>>>" ++ check (runes_of_ascii "packet A {
-    Inner {
-        u8 x `
-x`,
-        Deep {
-            u8 y `
-x`,
-        },
-    },
-}")).
-Eval vm_compute in ("<<<M1>>>" ++ check (runes_of_ascii "MetaData  crc {  Pad T
-, zchar[
-    0123456789
-    ] a1 ,int8 trueish// c
-, } packet float{ }
-")).
-Eval vm_compute in ("<<<M869>>>" ++ check (runes_of_ascii "packet A {
-  match k as n {
-    [1, ""bb"", 007, ""d"", 5, ""f"", 7, ""h"", 9] : B,
-    2 : C
-  },
-}")).
-Eval vm_compute in ("<<<M858>>>" ++ check (runes_of_ascii "packet A {
-  match k as n {
-    [""a"", 22, ""c c"", 4, ""e"", 66, ""g"", 8] : B,
-    2 : C
-  },
-}")).
-Eval vm_compute in ("<<<M612>>>" ++ check (runes_of_ascii "
+Eval vm_compute in ("<<<M635>>>" ++ check (runes_of_ascii "
 packet
-    asx {match u128 as lengthOf
+    asx {'1'match u128 as lengthOf
 {
 //	t
 // `tick` ""quote"" 'q'
 255 : x ,
-     ,	}")).
-Eval vm_compute in ("<<<M1246>>>" ++ check (runes_of_ascii "options {
-    LittleEndian = true;
-}
-root packet P {
-    repeat char cs,
-    u8 x,
+    } ,	}")).
+Eval vm_compute in ("<<<M388>>>" ++ check (runes_of_ascii "root packet SimpleMessage {
+    uint16 MsgType `" ++ [28040; 24687; 31867; 22411]%N ++ runes_of_ascii "`,
+    string JsonBody `Json" ++ [23383; 31526; 20018; 28040; 24687; 20307]%N ++ runes_of_ascii "`,
+}")).
+Eval vm_compute in ("<<<M878>>>" ++ check (runes_of_ascii "packet A {
+  match k as n {
+    [1, 22, 007, 4, 5, 66, 7, 8, 9, 10] : B,
+    2 : C
+  },
+}")).
+Eval vm_compute in ("<<<M771>>>" ++ check (runes_of_ascii "true @tag( root : repeat @calculatedFrom( match f64 int32 ] { zchar[ packet @lengthOf(")).
+Eval vm_compute in ("<<<M1442>>>" ++ check (runes_of_ascii "packet A {
+    match k as n {
+        [""a"", 22, ""c c""] : B,
+        2 : C,
+    },
+}")).
+Eval vm_compute in ("<<<M972>>>" ++ check (runes_of_ascii "packet A {
+    u32 crc @calculatedFrom(""\
+""),
+    @calculatedFrom(""\
+"") u8 y,
+}")).
+Eval vm_compute in ("<<<M818>>>" ++ check (runes_of_ascii "packet A {
+  match k as n {
+    [1, ""bb"", 007, ""d"", 5] : B
+    2 : C
+  },
+}")).
+Eval vm_compute in ("<<<M814>>>" ++ check (runes_of_ascii "packet A {
+  match k as n {
+    [1, 22, 007, 4, 5] : B
+    2 : C
+  },
+}")).
+Eval vm_compute in ("<<<M1290>>>" ++ check (runes_of_ascii "root packet P {
+    u8 s_u8,
+    repeat u8 r_u8,
+    u16 b_len,
 }
 ")).
-Eval vm_compute in ("<<<M816>>>" ++ check (runes_of_ascii "packet A {
-  match k as n {
-    [""a"", ""bb"", ""c c"", ""d"", ""e""] : B
-    2 : C
-  },
-}")).
-Eval vm_compute in ("<<<M269>>>" ++ check (runes_of_ascii "options
-{ Z9_ ='\x00'  } packet trueish
-{ // " ++ [128512]%N ++ runes_of_ascii " emoji
-u16 calculatedFrom
-, }")).
-Eval vm_compute in ("<<<M822>>>" ++ check (runes_of_ascii "packet A {
-  match k as n {
-    [1, 22, ""c c"", 4, 5] : B
-    2 : C
-  },
-}")).
-Eval vm_compute in ("<<<M800>>>" ++ check (runes_of_ascii "packet A {
-  match k as n {
-    [1, 22, 007, 4] : B,
-    2 : C
-  },
-}")).
-Eval vm_compute in ("<<<M781>>>" ++ check (runes_of_ascii "packet A {
-  match k as n {
-    [""a"", ""bb""] : B
-    2 : C
-  },
-}")).
-Eval vm_compute in ("<<<M1222>>>" ++ check (runes_of_ascii "// top
+Eval vm_compute in ("<<<M189>>>" ++ check (runes_of_ascii "
 packet
-    // c0
-x
-    // c1
-{
-    // c2
-}
-    // c3
+i64_ { @tag( 0123456789 ) repeat u16 stringy
+,
+    }")).
+Eval vm_compute in ("<<<M1088>>>" ++ check (runes_of_ascii "packet A { @tag(1) // a
+ @leftPad('0') // b
+ char[4] x, }")).
+Eval vm_compute in ("<<<M159>>>" ++ check (runes_of_ascii "root packet x  { roots @calculatedFrom(""a\""b"" ) , }")).
+Eval vm_compute in ("<<<M333>>>" ++ check (runes_of_ascii "  MetaData
+x_y_z{ }	packet chars	{	} options {}
 ")).
-Eval vm_compute in ("<<<M1406>>>" ++ check (runes_of_ascii "packet body {
-    i32 f32a `{ , }`,
-}
-
-// c
-options {
+Eval vm_compute in ("<<<M957>>>" ++ check (runes_of_ascii "MetaData M {
+    u8 x `
+x`,
+    T t `
+x`,
 }")).
-Eval vm_compute in ("<<<M1206>>>" ++ check (runes_of_ascii "packet body { i32
-// c
-f32a `{ , }` , } options { }")).
-Eval vm_compute in ("<<<M1073>>>" ++ check (runes_of_ascii "packet A {} packet B {} MetaData M {} options {}")).
-Eval vm_compute in ("<<<M1816>>>" ++ check (runes_of_ascii "root packet A {
-    u8 x `tab
-        	x`,
-}")).
-Eval vm_compute in ("<<<M1900>>>" ++ check (runes_of_ascii "
-packet
-A{
-	u8
-	x
-	`d" ++ [8192]%N ++ runes_of_ascii "`, 	 // c" ++ [8192]%N ++ runes_of_ascii "
+Eval vm_compute in ("<<<M325>>>" ++ check (runes_of_ascii "packet charz { } // packet A { u8 x, }")).
+Eval vm_compute in ("<<<M54>>>" ++ check (runes_of_ascii "options
+{ T= '0' ;A= u8 ;
+    } 	 ")).
+Eval vm_compute in ("<<<M753>>>" ++ check (runes_of_ascii ":l" ++ [65533; 23]%N ++ runes_of_ascii "9" ++ [65533; 1549]%N ++ runes_of_ascii "F" ++ [65533; 65533; 65533; 65533]%N ++ runes_of_ascii "j)" ++ [65533; 65533; 27; 25; 65533; 65533; 261; 14; 65533]%N ++ runes_of_ascii "V" ++ [65533; 65533]%N ++ runes_of_ascii "4b-" ++ [65533; 65533]%N)).
+Eval vm_compute in ("<<<M175>>>" ++ check (runes_of_ascii "
+packet calculatedFrom { } 	 ")).
+Eval vm_compute in ("<<<M713>>>" ++ check (runes_of_ascii "// @lengthOf(
+packet i8i8")).
+Eval vm_compute in ("<<<M1938>>>" ++ check (runes_of_ascii "
+packet  A { }
 
-  }
+// c" ++ [5760]%N ++ runes_of_ascii "
 ")).
-Eval vm_compute in ("<<<M1090>>>" ++ check (runes_of_ascii "packet A { @tag( // a
- 1 ) u8 x, }")).
-Eval vm_compute in ("<<<M1914>>>" ++ check (runes_of_ascii "packet A 
-{  u8
-
-x
-
-`a
-
-b` ,}
-")).
-Eval vm_compute in ("<<<M1945>>>" ++ check (runes_of_ascii "MetaData repeatCount {
+Eval vm_compute in ("<<<M1061>>>" ++ check (runes_of_ascii "packet A {
 }
-//	t")).
-Eval vm_compute in ("<<<M1595>>>" ++ check (runes_of_ascii "  packet
-
-pack
-    {
-}
-
-")).
-Eval vm_compute in ("<<<M1395>>>" ++ check (runes_of_ascii "root packet chars {
-}")).
-Eval vm_compute in ("<<<M1839>>>" ++ check (runes_of_ascii "
-packet falsey {}
-")).
-Eval vm_compute in ("<<<M1037>>>" ++ check (runes_of_ascii "// c" ++ [12]%N ++ runes_of_ascii "
+// c x")).
+Eval vm_compute in ("<<<M1012>>>" ++ check (runes_of_ascii "// c" ++ [8232]%N ++ runes_of_ascii "
 packet A {
 }")).
-Eval vm_compute in ("<<<M1034>>>" ++ check (runes_of_ascii "packet A {
-}// c" ++ [12]%N)).
-Eval vm_compute in ("<<<M1738>>>" ++ check (runes_of_ascii "  options {	}
+Eval vm_compute in ("<<<M984>>>" ++ check (runes_of_ascii "packet A {
+}// c" ++ [160]%N)).
+Eval vm_compute in ("<<<M378>>>" ++ check (runes_of_ascii "// @lengthOf(
+
 ")).
-Eval vm_compute in ("<<<M1040>>>" ++ check (runes_of_ascii "// c 	")).
-Eval vm_compute in ("<<<M746>>>" ++ check (runes_of_ascii "UXk")).
+Eval vm_compute in ("<<<M29>>>" ++ check (runes_of_ascii "// " ++ [27880; 37322]%N ++ runes_of_ascii "
+
+")).
+Eval vm_compute in ("<<<M56>>>" ++ check (runes_of_ascii " 	 ")).
